@@ -552,3 +552,41 @@ func GenScript(t *rapid.T, prop, profile string, o GenOpts) *Script {
 	s.Faults, s.BindFail = genFaults(t, o, &s.World)
 	return s
 }
+
+// GenRobustnessScript: healthy world + witness + malformed objects injected between cycles.
+func GenRobustnessScript(t *rapid.T, thorough bool) *Script {
+	o := mixedOpts(thorough)
+	o.Faults, o.BindFailures, o.MIG = false, false, false
+	o.MaxWorkloads = 5
+	s := GenScript(t, "C10", "malformed-objects", o)
+	s.Config.FullHierarchyFairness = chance(t, "fullfair", 70)
+	s.World.Nodes = append(s.World.Nodes, NodeSpec{Name: "nw", CPUm: 4000, MemMi: 8192, Pods: 20, GPUs: 1, Labels: map[string]string{"witness": "true"},
+		Taints: []TaintSpec{{Key: "witness", Value: "true", Effect: "NoSchedule"}}})
+	parent := ""
+	if !s.Config.FullHierarchyFairness {
+		// project-level fairness only keeps queues that have a parent
+		s.World.Queues = append(s.World.Queues, QueueSpec{Name: "dw", GPU: QRes{-1, -1, 1}, CPU: QRes{-1, -1, 1}, Mem: QRes{-1, -1, 1}})
+		parent = "dw"
+	}
+	s.World.Queues = append(s.World.Queues, QueueSpec{Name: "qw", Parent: parent, GPU: QRes{-1, -1, 1}, CPU: QRes{-1, -1, 1}, Mem: QRes{-1, -1, 1}})
+	s.World.Workloads = append(s.World.Workloads, WorkloadSpec{Name: "ww", Queue: "qw", MinMember: 1, AgeSec: 100, Pods: []PodSpec{{
+		Name: "ww-p0", CPUm: 100, MemMi: 128, State: "pending", NodeSelector: map[string]string{"witness": "true"},
+		Tolerations: []TolerationSpec{{Key: "witness", Operator: "Exists"}}}}})
+	var ops []Op
+	ninj := rapid.IntRange(1, 4).Draw(t, "ninject")
+	for i := 0; i < ninj; i++ {
+		ops = append(ops, Op{Kind: "inject", Arg: pick(t, "ikind", InjectKinds...), N: rapid.IntRange(0, 14).Draw(t, "ivariant")})
+	}
+	cycles := rapid.IntRange(2, 4).Draw(t, "c10cycles")
+	for c := 0; c < cycles; c++ {
+		ops = append(ops, Op{Kind: "cycle"}, Op{Kind: "binder"}, Op{Kind: "kubelet"})
+		if chance(t, "moreinject", 40) {
+			ops = append(ops, Op{Kind: "inject", Arg: pick(t, "ikind", InjectKinds...), N: rapid.IntRange(0, 14).Draw(t, "ivariant")})
+		}
+		if chance(t, "adv", 40) {
+			ops = append(ops, Op{Kind: "advance", N: pick(t, "advn", 1, 61, 600)})
+		}
+	}
+	s.Ops = ops
+	return s
+}
